@@ -66,6 +66,30 @@ pub fn srv_bytes(mode: &SrvMode, correct: &[u8]) -> Option<Vec<u8>> {
     }
 }
 
+/// A valid request for closed-loop clients: mostly what the project's client sends (1024
+/// bytes, no SRV, one version), one in four at a boundary of what the protocol allows (largest
+/// and near-largest datagram, SRV present, several offered versions).
+pub fn valid_variant(proto: P, nonce_seed: u64) -> ReqSpec {
+    let mut rng = Rng::derive(nonce_seed, "valid-variant");
+    let mut spec = (1024u16, SrvMode::Absent, vec![r::VER_DRAFT13]);
+    if rng.below(4) == 0 {
+        spec.0 = *rng.pick(&[1024u16, 1028, 1036, 1280, 1496, 1500, 1500]);
+        if proto == P::Ietf {
+            if rng.chance(1, 2) {
+                spec.1 = SrvMode::Correct;
+            }
+            if rng.chance(1, 2) {
+                spec.2 = match rng.below(3) {
+                    0 => vec![0x8000_0001, r::VER_DRAFT13],
+                    1 => vec![r::VER_DRAFT13, 0x8000_000e],
+                    _ => vec![1, 2, 3, r::VER_DRAFT13],
+                };
+            }
+        }
+    }
+    ReqSpec::Valid { proto, size: spec.0, nonce_seed, srv: spec.1, vers: spec.2 }
+}
+
 fn round4(n: usize) -> usize {
     n / 4 * 4
 }
